@@ -686,6 +686,88 @@ def rule_p2(idx: ProgramIndex, rep: Report, records: Dict[str, CtorRecord]):
                                           f"{c.file}:{c.node.lineno}"))
 
 
+def rule_p3(idx: ProgramIndex, rep: Report):
+    """A class whose `dtype` property reads an attribute that its constructor sets to a fixed value (state outside the
+    constructor record: the integer tensors of a permutation operator carry no floating dtype) cannot be converted by the
+    generic rebuild `self.__class__(*args, **kwargs)`: to() and type() as resolved on it must write that attribute (or pass
+    dtype= to the constructor) from the requested dtype."""
+    rep.rule("C14.P3", "a dtype kept in an attribute outside the constructor record is carried by to() and type()", floor=2)
+    base = idx.operator_base()
+    for c in idx.operator_classes():
+        if c is base:
+            continue
+        prop = idx.resolve_method(c, "dtype")
+        if prop is None or prop.cls is base or prop.cls is None:
+            continue
+        rets = [n.value for n in walk_body(prop) if isinstance(n, ast.Return) and n.value is not None]
+        if len(rets) != 1 or not (isinstance(rets[0], ast.Attribute) and isinstance(rets[0].value, ast.Name) and rets[0].value.id == "self"):
+            continue
+        attr = rets[0].attr
+        init = idx.resolve_method(c, "__init__")
+        if init is None or init.cls is base:
+            continue
+        params = set(init.params())
+        fixed = [n for n in walk_body(init) if isinstance(n, ast.Assign) and any(
+            isinstance(t, ast.Attribute) and isinstance(t.value, ast.Name) and t.value.id == "self" and t.attr == attr for t in n.targets)
+            and not any(isinstance(x, ast.Name) and x.id in params for x in ast.walk(n.value))]
+        if not fixed:
+            continue  # the attribute derives from a constructor argument: the record carries it (C14.P2 / the generic rebuild)
+        for m in ("to", "type"):
+            fn = idx.resolve_method(c, m)
+            ok = False
+            if fn is not None and fn.cls is not base:
+                target: Set[str] = {p_ for p_ in fn.params() if p_ == "dtype"}
+                for n in walk_body(fn):
+                    if isinstance(n, ast.Assign) and isinstance(n.value, ast.Call) and "_to_helper" in norm(n.value.func):
+                        for t in n.targets:
+                            target |= {x.id for x in ast.walk(t) if isinstance(x, ast.Name) and "dtype" in x.id}
+                for n in walk_body(fn):
+                    if isinstance(n, ast.Assign) and any(isinstance(t, ast.Attribute) and t.attr == attr and not (
+                            isinstance(t.value, ast.Name) and t.value.id == "self") for t in n.targets) \
+                            and any(isinstance(x, ast.Name) and x.id in target for x in ast.walk(n.value)):
+                        ok = True  # res._dtype = dtype (the result, not self: C12.W / C13.D forbid re-typing the receiver)
+                    if isinstance(n, ast.Call) and any(k.arg == "dtype" and any(isinstance(x, ast.Name) and x.id in target for x in ast.walk(k.value))
+                                                       for k in n.keywords) and (
+                            (isinstance(n.func, ast.Attribute) and n.func.attr == "__class__") or idx.class_of_expr(fn.module, n.func) is not None):
+                        ok = True
+            sample = {"class": c.name, "dtype_attribute": attr, "method": m, "defined_in": fn.cls.name if fn and fn.cls else None}
+            if ok:
+                rep.ok("C14.P3", sample)
+            else:
+                rep.bad("C14.P3", Finding(PROP, "C14.P3", f"{c.name}.{m}", f"{c.name} resolves {m} to "
+                                          f"{fn.cls.name if fn and fn.cls else None}.{m}: dtype attribute not carried",
+                                          f"{c.name}.dtype is `self.{attr}`, which {init.cls.name}.__init__ sets to a fixed value; {m}() as "
+                                          f"resolved on it ({fn.cls.name if fn and fn.cls else None}.{m}) rebuilds through the constructor and "
+                                          f"never writes `{attr}` from the requested dtype: the conversion returns an operator of the old "
+                                          "dtype (and its to_dense() is of the old dtype)", f"{c.file}:{c.node.lineno}"))
+
+
+def rule_v2(idx: ProgramIndex, rep: Report):
+    """No conversion short-cut on the operator's `dtype` attribute: for a generic operator `self.dtype` is the dtype of its
+    FIRST tensor only, so `if self.dtype == dtype: return self` hands back the unconverted operator although other recorded
+    tensors (a float32 summand next to a float64 one) still have another dtype."""
+    rep.rule("C14.V2", "conversions convert every recorded tensor (no `return self` short-cut on the first tensor's dtype)", floor=3)
+    base = idx.operator_base()
+    for c in idx.operator_classes():
+        for m in ("to", "type", "double", "float", "half"):
+            fn = c.methods.get(m)
+            if fn is None:
+                continue
+            dt = idx.resolve_method(c, "dtype")
+            generic_dtype = dt is None or dt.cls is base
+            rets = [n for n in walk_body(fn) if isinstance(n, ast.Return) and isinstance(n.value, ast.Name)
+                    and n.value.id == (fn.params()[0] if fn.params() else "self")]
+            sample = {"conversion": f"{c.name}.{m}", "returns_self": len(rets), "dtype_is_first_tensor_only": generic_dtype}
+            if rets and generic_dtype:
+                rep.bad("C14.V2", Finding(PROP, "C14.V2", f"{c.name}.{m}", "conversion returns self unconverted",
+                                         f"{c.name}.{m} can return `self` without converting: the operator's dtype attribute is the dtype "
+                                         "of its first tensor only, so an operator with components of different precision (a float32 "
+                                         "summand, a float64 diagonal) is handed back with tensors that are not of the requested dtype",
+                                         fn.loc(rets[0])), sample)
+            else:
+                rep.ok("C14.V2", sample)
+
+
 # ------------------------------------------------------------------------------------------------ G
 def rule_g(idx: ProgramIndex, rep: Report):
     rep.rule("C14.G", "requires_grad_ on recorded arguments only behind a floating dtype test", floor=1)
@@ -893,6 +975,8 @@ def run(idx: ProgramIndex, rep: Report, tier: str, selftest: bool = True):
     rule_v(idx, rep, records)
     rule_p(idx, rep, records)
     rule_p2(idx, rep, records)
+    rule_p3(idx, rep)
+    rule_v2(idx, rep)
     rule_n(idx, rep)
     rule_g(idx, rep)
     rule_g2(idx, rep)
